@@ -71,86 +71,97 @@ func (r *Runner) execStat(a []string) string {
 			out = "err"
 			return
 		}
-		op := a[4:]
-		clean := !anyNaN(f[0], f[1], f[2], f[3]) && !math.IsInf(f[1], 0)
-		switch {
-		case op[0] == "new" && len(op) == 1:
-		case op[0] == "rescale" && len(op) == 2:
-			k, ok := parseF(op[1])
-			if !ok {
-				out = "bad-op"
-				return
-			}
-			st.Rescale(k)
-			// unit change by a positive factor: count kept, extremes scaled (C17); min <= max kept for any factor
-			if clean && f[0] > 0 && !math.IsNaN(k) && !math.IsInf(k, 0) {
-				if st.Count() != f[0] {
-					r.oracleFail("stat-rescale", fmt.Sprintf("Rescale(%v) changed the count %v -> %v", k, f[0], st.Count()))
-				}
-				if k > 0 && (st.Min() != f[2]*k || st.Max() != f[3]*k) {
-					r.oracleFail("stat-rescale", fmt.Sprintf("Rescale(%v) of [%v,%v] gives [%v,%v]", k, f[2], f[3], st.Min(), st.Max()))
-				}
-				if st.Min() > st.Max() {
-					r.oracleFail("stat-rescale", fmt.Sprintf("Rescale(%v) of [%v,%v] gives min %v > max %v", k, f[2], f[3], st.Min(), st.Max()))
-				}
-			}
-		case op[0] == "reweight" && len(op) == 2:
-			k, ok := parseF(op[1])
-			if !ok {
-				out = "bad-op"
-				return
-			}
-			st.Reweight(k)
-			// C16: count and sum scale, extremes unchanged (factor > 0)
-			if clean && k > 0 && !math.IsInf(k, 0) {
-				if st.Count() != f[0]*k || st.Min() != f[2] || st.Max() != f[3] {
-					r.oracleFail("stat-reweight", fmt.Sprintf("Reweight(%v) of count %v [%v,%v] gives %s", k, f[0], f[2], f[3], showStat(st)))
-				}
-				if want := f[1] * k; st.Sum() != want && !math.IsNaN(want) {
-					r.oracleFail("stat-reweight", fmt.Sprintf("Reweight(%v): sum %v -> %v, want %v", k, f[1], st.Sum(), want))
-				}
-			}
-		case op[0] == "add" && len(op) == 3:
-			v, ok1 := parseF(op[1])
-			w, ok2 := parseF(op[2])
-			if !ok1 || !ok2 {
-				out = "bad-op"
-				return
-			}
-			st.Add(v, w)
-			if clean && !anyNaN(v, w) {
-				if st.Count() != f[0]+w || st.Min() != math.Min(f[2], v) || st.Max() != math.Max(f[3], v) {
-					r.oracleFail("stat-add", fmt.Sprintf("Add(%v,%v) to count %v [%v,%v] gives %s", v, w, f[0], f[2], f[3], showStat(st)))
-				}
-			}
-		case op[0] == "merge" && len(op) == 5:
-			var g [4]float64
-			for i := 0; i < 4; i++ {
-				v, ok := parseF(op[1+i])
+		ops := a[4:]
+		first := true
+		for len(ops) > 0 {
+			// the direct oracle describes one operation on freshly constructed statistics (compensation 0)
+			clean := first && !anyNaN(f[0], f[1], f[2], f[3]) && !math.IsInf(f[1], 0)
+			first = false
+			cur := [4]float64{st.Count(), st.Sum(), st.Min(), st.Max()}
+			switch {
+			case ops[0] == "new":
+				ops = ops[1:]
+			case ops[0] == "rescale" && len(ops) >= 2:
+				k, ok := parseF(ops[1])
 				if !ok {
 					out = "bad-op"
 					return
 				}
-				g[i] = v
-			}
-			o := mk(g[0], g[1], g[2], g[3])
-			if o == nil {
-				out = "err"
+				ops = ops[2:]
+				st.Rescale(k)
+				// unit change by a positive factor: count kept, extremes scaled (C17); min <= max kept for any factor
+				if clean && cur[0] > 0 && !math.IsNaN(k) && !math.IsInf(k, 0) {
+					if st.Count() != cur[0] {
+						r.oracleFail("stat-rescale", fmt.Sprintf("Rescale(%v) changed the count %v -> %v", k, cur[0], st.Count()))
+					}
+					if k > 0 && (st.Min() != cur[2]*k || st.Max() != cur[3]*k) {
+						r.oracleFail("stat-rescale", fmt.Sprintf("Rescale(%v) of [%v,%v] gives [%v,%v]", k, cur[2], cur[3], st.Min(), st.Max()))
+					}
+					if st.Min() > st.Max() {
+						r.oracleFail("stat-rescale", fmt.Sprintf("Rescale(%v) of [%v,%v] gives min %v > max %v", k, cur[2], cur[3], st.Min(), st.Max()))
+					}
+				}
+			case ops[0] == "reweight" && len(ops) >= 2:
+				k, ok := parseF(ops[1])
+				if !ok {
+					out = "bad-op"
+					return
+				}
+				ops = ops[2:]
+				st.Reweight(k)
+				// C16: count and sum scale, extremes unchanged (factor > 0)
+				if clean && k > 0 && !math.IsInf(k, 0) {
+					if st.Count() != cur[0]*k || st.Min() != cur[2] || st.Max() != cur[3] {
+						r.oracleFail("stat-reweight", fmt.Sprintf("Reweight(%v) of count %v [%v,%v] gives %s", k, cur[0], cur[2], cur[3], showStat(st)))
+					}
+					if want := cur[1] * k; st.Sum() != want && !math.IsNaN(want) {
+						r.oracleFail("stat-reweight", fmt.Sprintf("Reweight(%v): sum %v -> %v, want %v", k, cur[1], st.Sum(), want))
+					}
+				}
+			case ops[0] == "add" && len(ops) >= 3:
+				v, ok1 := parseF(ops[1])
+				w, ok2 := parseF(ops[2])
+				if !ok1 || !ok2 {
+					out = "bad-op"
+					return
+				}
+				ops = ops[3:]
+				st.Add(v, w)
+				if clean && !anyNaN(v, w) {
+					if st.Count() != cur[0]+w || st.Min() != math.Min(cur[2], v) || st.Max() != math.Max(cur[3], v) {
+						r.oracleFail("stat-add", fmt.Sprintf("Add(%v,%v) to count %v [%v,%v] gives %s", v, w, cur[0], cur[2], cur[3], showStat(st)))
+					}
+				}
+			case ops[0] == "merge" && len(ops) >= 5:
+				var g [4]float64
+				for i := 0; i < 4; i++ {
+					v, ok := parseF(ops[1+i])
+					if !ok {
+						out = "bad-op"
+						return
+					}
+					g[i] = v
+				}
+				ops = ops[5:]
+				o := mk(g[0], g[1], g[2], g[3])
+				if o == nil {
+					out = "err"
+					return
+				}
+				before := showStat(o)
+				st.MergeWith(o)
+				if after := showStat(o); after != before {
+					r.oracleFail("stat-merge", "MergeWith changed its argument: "+before+" -> "+after)
+				}
+				if clean && !anyNaN(g[0], g[1], g[2], g[3]) {
+					if st.Count() != cur[0]+g[0] || st.Min() != math.Min(cur[2], g[2]) || st.Max() != math.Max(cur[3], g[3]) {
+						r.oracleFail("stat-merge", fmt.Sprintf("merge of count %v [%v,%v] and count %v [%v,%v] gives %s", cur[0], cur[2], cur[3], g[0], g[2], g[3], showStat(st)))
+					}
+				}
+			default:
+				out = "bad-op"
 				return
 			}
-			before := showStat(o)
-			st.MergeWith(o)
-			if after := showStat(o); after != before {
-				r.oracleFail("stat-merge", "MergeWith changed its argument: "+before+" -> "+after)
-			}
-			if clean && !anyNaN(g[0], g[1], g[2], g[3]) {
-				if st.Count() != f[0]+g[0] || st.Min() != math.Min(f[2], g[2]) || st.Max() != math.Max(f[3], g[3]) {
-					r.oracleFail("stat-merge", fmt.Sprintf("merge of count %v [%v,%v] and count %v [%v,%v] gives %s", f[0], f[2], f[3], g[0], g[2], g[3], showStat(st)))
-				}
-			}
-		default:
-			out = "bad-op"
-			return
 		}
 		out = showStat(st)
 	})
